@@ -1340,7 +1340,7 @@ static LY_ERR
 lys_compile_unres_depset(struct ly_ctx *ctx, struct lys_glob_unres *unres)
 {
     LY_ERR ret = LY_SUCCESS;
-    struct lysc_node *node;
+    struct lysc_node *node, *parent;
     struct lysc_type *typeiter;
     struct lysc_type_leafref *lref;
     struct lysc_ctx cctx = {0};
@@ -1489,7 +1489,12 @@ resolve_all:
 
         LYSC_CTX_INIT_PMOD(cctx, node->module->parsed, NULL);
 
+        parent = (node->flags & LYS_MAND_TRUE) ? node->parent : NULL;
         lysc_node_free(&cctx.free_ctx, node, 1);
+        if (parent) {
+            /* a mandatory node was removed, its parent containers may not be mandatory anymore */
+            lys_compile_mandatory_parents(parent, 0);
+        }
     }
 
     /* also check if the leafref target has not been disabled */
